@@ -127,3 +127,50 @@ func (c *Ctx) freshPerIteration(rule, pkg string) int {
 	}
 	return pairs
 }
+
+// loopVarCaptures lists closures created inside a loop that capture (by reference) a variable which lives
+// OUTSIDE the loop but is assigned in it — under the module's Go version (< 1.22) the range/loop variable is
+// one shared cell, so a closure that runs later (goroutine, deferred, task group) sees the last value.
+func loopVarCaptures(c *Ctx, f *ssa.Function) []string {
+	var out []string
+	loops := naturalLoops(f)
+	for _, l := range loops {
+		for b := range l {
+			for _, ins := range b.Instrs {
+				mc, ok := ins.(*ssa.MakeClosure)
+				if !ok {
+					continue
+				}
+				// only closures that are handed to something that may run them later
+				escapes := false
+				for _, r := range *mc.Referrers() {
+					switch r := r.(type) {
+					case *ssa.Go, *ssa.Defer:
+						escapes = true
+					case *ssa.Call:
+						if r.Call.Value != ssa.Value(mc) { // passed as an argument, not called directly
+							escapes = true
+						}
+					}
+				}
+				if !escapes {
+					continue
+				}
+				for _, bv := range mc.Bindings {
+					al, ok := bv.(*ssa.Alloc)
+					if !ok || l[al.Block()] {
+						continue
+					}
+					// assigned inside the loop?
+					for _, r := range *al.Referrers() {
+						if st, ok := r.(*ssa.Store); ok && st.Addr == ssa.Value(al) && l[st.Block()] {
+							out = append(out, fmt.Sprintf("%s: closure captures loop variable %q by reference (go.mod < 1.22: one shared variable for all iterations)", c.P.Pos(mc.Pos()), al.Comment))
+							break
+						}
+					}
+				}
+			}
+		}
+	}
+	return out
+}
